@@ -47,19 +47,27 @@ func verifRunProgram(src string, cfg *Config, vars map[string]value) (int, error
 // a write failure injected at every write (and flush) position of standard output, buffered or not
 func VerifC13Fault() {
 	endings := []string{"", "; exit 3", "; x = 1 / zero"}
-	src := `BEGIN { print a; printf "%s", b; print c` + endings[verifIntRange(0, 2)] + ` }`
-	w := &verifFailWriter{failAt: verifIntRange(0, 4)}
+	// the long constant makes a 16-byte bufio.Writer flush in the middle of the run as well as at the end
+	src := `BEGIN { print a "0123456789abcdef"; printf "%s", b; print c` + endings[verifIntRange(0, 2)] + ` }`
 	buffered := verifIntRange(0, 1) == 1
-	cfg := &Config{Stdin: bytes.NewReader(nil), Error: &bytes.Buffer{}, Environ: []string{}}
-	if buffered {
-		cfg.Output = bufio.NewWriterSize(w, 16)
-	} else {
-		cfg.Output = w
-	}
 	vars := map[string]value{"a": str(verifString(1)), "b": str(verifString(1)), "c": str(verifString(1))}
-	_, err, _ := verifRunProgram(src, cfg, vars)
+	run := func(failAt int) (*verifFailWriter, error) {
+		w := &verifFailWriter{failAt: failAt}
+		cfg := &Config{Stdin: bytes.NewReader(nil), Error: &bytes.Buffer{}, Environ: []string{}}
+		if buffered {
+			cfg.Output = bufio.NewWriterSize(w, 16)
+		} else {
+			cfg.Output = w
+		}
+		_, err, _ := verifRunProgram(src, cfg, vars)
+		return w, err
+	}
+	clean, _ := run(0)
+	failAt := verifIntRange(1, 5)
+	w, err := run(failAt)
 	verifReach("ran")
-	verifKnown("C13-final-flush-error-ignored", buffered)
+	// recorded finding: only the very last flush (performed when the run is being closed down) is ignored
+	verifKnown("C13-final-flush-error-ignored", buffered && failAt == clean.n)
 	if w.failed {
 		verifAssert(err != nil, "a write to standard output failed but the run reported success")
 	}
